@@ -135,6 +135,9 @@ def percentNonInferable (items : List (Inference κ)) : Rat :=
 /-- `abs_num`: `if val > 0 { val } else { -1 * val }` -/
 def absNum (v : Rat) : Rat := if v > 0 then v else -1 * v
 
+/-- `Inferable::conjoint_delta` of one member: `abs_num(1.0 − observation)`; `val` = the number a member value stands for -/
+def itemConjointDelta (val : κ → Rat) (i : Inference κ) : Rat := absNum (1 - val i.obs)
+
 /-- `conjoint_delta` of a collection: `abs_num(1 − (total − non_inferable) / total)` -/
 def conjointDelta (items : List (Inference κ)) : Rat :=
   let total : Rat := (items.length : Rat)
